@@ -35,6 +35,8 @@ def check(c: Check):
     clause_f(c)
     from .common import check_references_complete
     check_references_complete(c, 'C08-g', floor=25)
+    from .common import sweep_records
+    sweep_records(c, 'C08-rec', ['exactly_lib.symbol', 'exactly_lib.util.symbol_table', 'exactly_lib.type_val_deps.sym_ref'], floor=5)
 
 
 # ---------------------------------------------------------------- a
